@@ -358,7 +358,7 @@ func (r *run) books(op string) {
 				}
 			}
 			esc := r.w.BalanceOf(t, bx.Erc20ModuleAddr())
-			if d := new(big.Int).Sub(esc, coinSupply).String(); r.changed("ext:"+p.Denom, d) {
+			if d := new(big.Int).Sub(esc, coinSupply).String(); r.changed("ext:"+p.Denom, d) && d != "0" {
 				cls := "conversion"
 				if strings.HasPrefix(op, "cden") {
 					cls = "MsgConvertDenom"
@@ -748,9 +748,6 @@ func (r *run) randomOp() {
 	case k < 56:
 		dens := []int{-1, 0, 1, 2}
 		gg := 1 + rng.Intn(2)
-		if rng.Intn(8) == 0 {
-			gg = 3
-		}
 		// externally-owned base<->alias conversions are a listed finding; keep them rare but present
 		r.cden(gg, u, rc, 1+rng.Intn(10), dens[rng.Intn(4)], dens[rng.Intn(4)])
 	case k < 62:
@@ -761,8 +758,8 @@ func (r *run) randomOp() {
 				al = append(al, 100+10*d+c)
 			}
 		}
-		if rng.Intn(6) == 0 {
-			al = append(al, 110) // alias of another denom
+		if rng.Intn(6) == 0 && r.w.S.App.Erc20Keeper.IsAliasDenomRegistered(r.ctx(), aliasName(110)) {
+			al = append(al, 110) // alias of another denom (only while it is registered: coins of it exist)
 		}
 		if rng.Intn(10) == 0 {
 			al = append(al, 1) // a registered base denom as alias
@@ -778,7 +775,10 @@ func (r *run) randomOp() {
 		d := rng.Intn(7)
 		a := 100 + 10*d + rng.Intn(3)
 		if rng.Intn(5) == 0 {
-			a = 100 + 10*rng.Intn(7) + rng.Intn(3)
+			// an alias of another group; kept among denominations 3..6, which the conversion ops only use with their own
+			// aliases (modelling assumption of the ledger slice: an alias converts within its own token group)
+			d = 3 + rng.Intn(4)
+			a = 100 + 10*(3+rng.Intn(4)) + rng.Intn(3)
 		}
 		if rng.Intn(15) == 0 {
 			a = rng.Intn(7)
